@@ -367,9 +367,11 @@ def run_family_c20(name, cfgs, rand_cfg, binaries, seed, tier, tlc_workers=3, ra
             c = cfgs[b["ci"] - 1]
             f.write(json.dumps({"id": f"{name}.m{i}", "fam": c["fam"], "cfg": c, "drive": "replay",
                                 "script": b["script"]}) + "\n")
-        if rand_cfg is not None and rand_count > 0:
-            f.write(json.dumps({"id": f"{name}.r", "fam": rand_cfg["fam"], "cfg": rand_cfg, "drive": "rand",
-                                "seed": seed, "count": rand_count}) + "\n")
+        rcs = [] if rand_cfg is None else (rand_cfg if isinstance(rand_cfg, list) else [rand_cfg])
+        for j, rc_ in enumerate(rcs):
+            if rand_count > 0:
+                f.write(json.dumps({"id": f"{name}.r{j}", "fam": rc_["fam"], "cfg": rc_, "drive": "rand",
+                                    "seed": seed, "count": rand_count}) + "\n")
     th = time.time()
     files = {}
     for tag, (binary, envx) in binaries.items():
